@@ -90,6 +90,9 @@ def load_soupsieve(cache_bound: int | None = None, sim_locks: bool = True):
     functools.lru_cache = lru_cache_seam
     if sim_locks:
         sys.modules['threading'] = _make_threading_proxy()
+    bound_finder = _BoundFinder(cache_bound) if cache_bound is not None and cache_bound != SHIPPED_BOUND else None
+    if bound_finder is not None:
+        sys.meta_path.insert(0, bound_finder)
     try:
         with warnings.catch_warnings():
             warnings.simplefilter('ignore')
@@ -98,6 +101,12 @@ def load_soupsieve(cache_bound: int | None = None, sim_locks: bool = True):
         functools.lru_cache = _real_lru_cache
         if sim_locks and real_threading is not None:
             sys.modules['threading'] = real_threading
+        if bound_finder is not None:
+            try:
+                sys.meta_path.remove(bound_finder)
+            except ValueError:  # pragma: no cover
+                pass
+            _state['bound_applied'] += bound_finder.applied
 
     f = os.path.abspath(sv.__file__)
     if not f.startswith(repo_pkg_dir()):
@@ -110,6 +119,46 @@ def load_soupsieve(cache_bound: int | None = None, sim_locks: bool = True):
         if isinstance(v, int) and v == SHIPPED_BOUND:
             cp._MAXCACHE = cache_bound
     return sv
+
+
+class _BoundFinder:
+    """Cache-bound knob, second half: load soupsieve.css_parser with the literal ``_MAXCACHE = 500`` read as
+    ``_MAXCACHE = K``.  The file on disk is untouched, file name and line numbers are unchanged; this also reaches a
+    hand-written cache that captures the constant at import time (which the lru_cache wrapper cannot)."""
+
+    def __init__(self, bound):
+        self.bound = bound
+        self.applied = 0
+
+    def find_spec(self, name, path=None, target=None):
+        if name != 'soupsieve.css_parser':
+            return None
+        import importlib.machinery
+        import importlib.util
+        import re as _re
+        spec = importlib.machinery.PathFinder.find_spec(name, path, target)
+        if spec is None or not getattr(spec, 'origin', None) or not spec.origin.endswith('.py'):
+            return spec
+        finder = self
+
+        class Loader(importlib.machinery.SourceFileLoader):
+            def get_data(self, path):
+                data = super().get_data(path)
+                if path.endswith('.py'):
+                    new, n = _re.subn(rb'(?m)^(_MAXCACHE\s*=\s*)500\b', lambda m: m.group(1) + str(finder.bound).encode(),
+                                      data)
+                    if n:
+                        finder.applied += n
+                        return new
+                return data
+
+            def get_code(self, fullname):
+                # never use or write a cached .pyc for the transformed source
+                source = self.get_data(self.get_filename(fullname))
+                return compile(source, self.get_filename(fullname), 'exec', dont_inherit=True)
+
+        spec.loader = Loader(name, spec.origin)
+        return spec
 
 
 def cache_handle(sv):
